@@ -29,6 +29,11 @@ type Config struct {
 	Burst     bool
 	KVFault   bool // graph database write failures are injected under deliveries
 	SQL       bool // graph store on sqlite instead of bbolt
+	// Aging: the zombie-prune ticker of graph.Builder is brought within
+	// reach of the fake clock (15 days) and the run may sleep past it, so
+	// that channels whose policies are all older than the prune horizon
+	// are pruned into the zombie index.
+	Aging bool
 	// BanThreshold: 100 is the daemon default; 4 lets a run reach the ban.
 	BanThreshold uint64
 	// weights of the step kinds
@@ -64,6 +69,8 @@ func DrawConfig(t *simcore.Tape, thorough bool) Config {
 	}
 	c.SyncPeers = 1 + t.CfgDraw(c.Peers)
 	switch a := t.CfgDraw(16); {
+	case a == 8:
+		c.Aging = true
 	case a >= 9 && a <= 12:
 		c.Burst = true
 	case a == 13 || a == 14:
@@ -112,6 +119,13 @@ type Sim struct {
 	spends   int
 	dbFaults int
 	selfloop bool // a channel with node_id_1 == node_id_2 has been in the graph
+	// aging arm
+	ages        int               // long sleeps so far
+	agedSince   bool              // a zombie prune may have run since the last check
+	zombieSince map[uint64]uint32 // scid pruned as a zombie -> unix time of the prune
+	// liveUpd: scid -> a channel_update for it was delivered after it became
+	// a zombie whose timestamp was within the prune horizon at delivery
+	liveUpd map[uint64]bool
 	curWires map[string]bool // messages delivered in the current step
 	rejected int
 	corrupt  int
@@ -321,6 +335,8 @@ func (s *Sim) run() {
 	r := s.r
 	chain := s.buildUniverse()
 	self := newNode(100)
+	agingWorld = s.cfg.Aging
+	s.zombieSince, s.liveUpd = map[uint64]uint32{}, map[uint64]bool{}
 	s.w = NewWorld(r, chain, self, s.cfg.Peers, s.cfg.SyncPeers, s.cfg.SQL, s.cfg.BanThreshold)
 	logf(r, "config: %+v", s.cfg)
 	s.proj = s.w.readProjection()
@@ -340,6 +356,9 @@ func (s *Sim) run() {
 		}
 		if s.cfg.WFilter > 0 {
 			ops = append(ops, op{"filter", s.cfg.WFilter})
+		}
+		if s.cfg.Aging && s.ages < 2 && s.step > 8 {
+			ops = append(ops, op{"age", 2})
 		}
 		if s.cfg.WBurst > 0 {
 			ops = append(ops, op{"burst", s.cfg.WBurst})
@@ -390,6 +409,19 @@ func (s *Sim) run() {
 			time.Sleep(d)
 			s.w.settle()
 			what = "after advancing the clock by " + d.String()
+		case "age":
+			// sleep past the zombie-prune interval: graph.Builder
+			// prunes every channel whose two policies are both older
+			// than the prune horizon (or missing)
+			d := pruneInterval + time.Hour
+			r.Kind("age:" + d.String())
+			logf(r, "#%d clock +%v (zombie prune due)", s.step, d)
+			time.Sleep(d)
+			s.w.settle()
+			s.ages++
+			s.agedSince = true
+			r.Count("fault_long_sleep_past_prune_interval")
+			what = "after sleeping past the zombie-prune interval"
 		case "trickle":
 			r.Kind("trickle")
 			logf(r, "#%d trickle interval passes", s.step)
@@ -659,6 +691,9 @@ func (s *Sim) remember(w []byte, label string) {
 	switch mi.kind {
 	case typeChanUpdate:
 		if m, ok := parseCU(w); ok {
+			if since, z := s.zombieSince[m.scid]; z && m.ts+uint32(pruneHorizon/time.Second) >= s.nowTs() && m.ts >= since-uint32(pruneHorizon/time.Second) {
+				s.liveUpd[m.scid] = true
+			}
 			c := s.proj.chans[m.scid]
 			if c == nil || c.pol[m.dir()] == nil || c.pol[m.dir()].ts < m.ts {
 				mi.fresh = true
